@@ -432,14 +432,17 @@ impl World for OAuthW {
                 }
             }
             Op::Revoke(j) => {
-                let (tok, session, client) = {
+                let (tok, session, client, issued) = {
                     let s = &self.sets[*j];
-                    (s.access.clone(), s.session, s.client)
+                    (s.access.clone(), s.session, s.client, s.issued)
                 };
                 let (_, post) = self.client_auth(client);
                 let req = TokenRevokeRequest { token: tok, token_type_hint: None, client_post_auth: post.map(|p| p.into()).unwrap_or_default() };
                 let r = self.idm.write(ct, |w| w.oauth2_token_revoke(&req, ct).map_err(|e| OperationError::InvalidAttribute(format!("{e:?}"))));
-                if r.is_ok() {
+                // the endpoint answers an expired token with success and no effect (RFC 7009 2.2):
+                // only the presentation of a token that is still in date revokes the session
+                let in_date = self.now < issued + OAUTH2_ACCESS_TOKEN_EXPIRY as u64;
+                if r.is_ok() && in_date {
                     self.dead.entry(session).or_insert(("the session was revoked through the revocation endpoint".to_string(), self.now));
                 }
                 opstr(&r)
